@@ -1724,7 +1724,23 @@ def order_sources():
     return "\n".join(out), {"order_sources": len(rows)}
 
 
-GENERATORS = {"CropCatalogue.v": crop_catalogue, "StateFields.v": state_fields, "StoreSites.v": store_sites, "OrderSources.v": order_sources}
+def kernels_src():
+    """gen/KernelsSrc.v: the kernel FUNCTIONS themselves, translated from their Python source text into Gallina definitions by
+    harness/gen_kernels.py (fail-closed); proofs/KernelsSrcOK.v proves each equal to the hand model for every number type"""
+    import gen_kernels
+    try:
+        text, st = gen_kernels.generate(None)
+    except (gen_kernels.TranslatorError, SyntaxError, RecursionError) as e:
+        # fail closed, but only for what depends on this file (the properties whose pinned theorems import KernelsSrcOK): the generated
+        # file is replaced by one that does not compile, so proofs/KernelsSrcOK.v and Properties/C17_src.v / C05_src.v stop checking
+        msg = str(e).replace("*)", "* )")
+        return ("(* TRANSLATOR-ERROR (harness/gen_kernels.py refused the current source): %s *)\n"
+                "Definition kernels_src_translator_refused_the_source : False := I.\n" % msg), {"translator_error": msg[:300]}
+    return text, {"functions": len(st) if isinstance(st, dict) else None}
+
+
+GENERATORS = {"CropCatalogue.v": crop_catalogue, "StateFields.v": state_fields, "StoreSites.v": store_sites, "OrderSources.v": order_sources,
+              "KernelsSrc.v": kernels_src}
 
 
 def main(argv=None):
